@@ -14,6 +14,7 @@ mod builder;
 
 use builder::*;
 use serde_json::{json, Value};
+use std::sync::{mpsc, Arc, Mutex};
 use verif_harness::common::*;
 
 /// the API route used for call i in variant v: variants 0..8 and 11..18 use
@@ -199,16 +200,44 @@ fn run(comp: &str, tgt: &str, calls: &[Value], variant: u32) -> Value {
     }
 }
 
+/// one run of a behaviour on a worker thread
+struct Job {
+    no: usize,
+    comp: String,
+    tgt: String,
+    calls: Arc<Vec<Value>>,
+    variant: u32,
+}
+
 fn main() {
     let all_variants = tier_thorough();
     let mut case_no = 0usize;
+    // the variants of one behaviour are executed by a few worker threads
+    // (every run builds its own message; nothing is shared)
+    let (job_tx, job_rx) = mpsc::channel::<Job>();
+    let job_rx = Arc::new(Mutex::new(job_rx));
+    let (res_tx, res_rx) = mpsc::channel::<(usize, Value)>();
+    for _ in 0..4 {
+        let rx = Arc::clone(&job_rx);
+        let tx = res_tx.clone();
+        std::thread::spawn(move || loop {
+            let job = match rx.lock().expect("job queue").recv() {
+                Ok(j) => j,
+                Err(_) => return,
+            };
+            let v = catch(|| run(&job.comp, &job.tgt, &job.calls, job.variant));
+            if tx.send((job.no, v)).is_err() {
+                return;
+            }
+        });
+    }
     run_cases(|input| {
         let comp = input["comp"].as_str().unwrap_or("none").to_string();
         let tgt = input["tgt"].as_str().unwrap_or("vec").to_string();
-        let calls = input["calls"].as_array().cloned().unwrap_or_default();
+        let calls = Arc::new(input["calls"].as_array().cloned().unwrap_or_default());
         // every behaviour is executed once per API route variant; the
-        // specification does not distinguish them (nor Vec<u8> and BytesMut)
-        let first = run(&comp, &tgt, &calls, 0);
+        // specification does not distinguish them (nor Vec<u8> and BytesMut,
+        // nor the stream targets over them)
         let mut tgts = vec![tgt.as_str()];
         if tgt == "vec" {
             tgts.push("bytes");
@@ -216,21 +245,37 @@ fn main() {
         if tgt == "stream" {
             tgts.push("sbytes");
         }
-        // quick tier: half of the variants per behaviour, which half rotates
-        // with the behaviour; thorough tier: all of them
+        // quick tier: a third of the variants per behaviour, which third
+        // rotates with the behaviour; thorough tier: all of them
         case_no += 1;
+        let mut jobs: Vec<(&str, u32)> = vec![];
         for (ti, t) in tgts.into_iter().enumerate() {
             for v in 0..VARIANTS {
                 if v == 0 && t == tgt {
                     continue;
                 }
-                if !all_variants && (v as usize + case_no + ti) % 2 == 1 {
+                if !all_variants && (v as usize + case_no + ti) % 3 != 0 {
                     continue;
                 }
-                let other = catch(|| run(&comp, t, &calls, v));
-                if other != first {
-                    return json!({"route_variant": v, "tgt": t, "obs": other, "variant0": first});
-                }
+                jobs.push((t, v));
+            }
+        }
+        for (no, (t, v)) in jobs.iter().enumerate() {
+            job_tx
+                .send(Job { no, comp: comp.clone(), tgt: t.to_string(), calls: Arc::clone(&calls), variant: *v })
+                .expect("workers alive");
+        }
+        let first = run(&comp, &tgt, &calls, 0);
+        let mut results: Vec<Option<Value>> = vec![None; jobs.len()];
+        for _ in 0..jobs.len() {
+            let (no, v) = res_rx.recv().expect("workers alive");
+            results[no] = Some(v);
+        }
+        for (no, other) in results.into_iter().enumerate() {
+            let other = other.expect("every job answered");
+            if other != first {
+                let (t, v) = jobs[no];
+                return json!({"route_variant": v, "tgt": t, "obs": other, "variant0": first});
             }
         }
         first
